@@ -7,7 +7,7 @@ RULE = ('canonical angles in all four quadrants, on the axes and within ulps / 1
         'non-trivial = owned op result differs from its operands')
 TRUSTED = TRUSTED_COMMON
 ASSUMPTIONS = ASSUME_COMMON + ['libm cos/sin enter as the model parameter L; the encoding theorems assume only finiteness of the returned value']
-S3_LEGS = ['numeric values |cos t|, |sin t|, cos^2+sin^2 = 1, |tan t|, adj/opp = Cartesian components: predicates trig_enc, tan_enc, adj_opp_enc against mpmath']
+S3_LEGS = ['|cos t|, |sin t|, cos^2+sin^2, tan, adj / opp values are theorems under cos_acc / sin_acc (C15_*_value, C15_pythagoras, C15_tan_value); predicates trig_enc, tan_enc, adj_opp_enc against mpmath decide every generated case']
 
 def generate(rng, tier):
     n = 300 if tier == 'quick' else 8000
